@@ -21,6 +21,8 @@ package align
 //@   modifies sb.seqmap, map(sb.seqmap), field(seq.name), map(namemap)
 //@   loop 1
 //@     invariant wf(sb) && namemap != nil && shortmap != nil && fresh(shortmap) && (nrows(sb) > 0 ==> size >= 2)
+// every short name already handed out through the shared map is recorded as used (what the uniqueness of new names rests on)
+//@     invariant forall k string :: visited(k) ==> has(shortmap, namemap[k])
 //@   loop 2
 //@     modifies field(seq.name), map(namemap), map(shortmap), map(sb.seqmap), mem(any)
 //@     invariant sb != nil && rowsok(sb) && namemap != nil && shortmap != nil && fresh(shortmap) && (nrows(sb) > 0 ==> size >= 2)
@@ -28,6 +30,7 @@ package align
 //@     invariant forall r :: 0 <= r && r < $i ==> has(namemap, old(rowname(sb, r))) && namemap[old(rowname(sb, r))] == rowname(sb, r)
 //@     invariant forall r :: $i <= r && r < nrows(sb) ==> rowname(sb, r) == old(rowname(sb, r))
 //@     invariant forall k string :: old(has(namemap, k)) ==> has(namemap, k) && namemap[k] == old(namemap[k])
+//@     invariant forall k string :: has(namemap, k) ==> has(shortmap, namemap[k])
 //@     decreases nrows(sb) - $i
 //@   loop 3
 //@     invariant 0 <= m
